@@ -339,6 +339,19 @@ def _c14_paramshadow(rep, tier):
     return c20tier.run_paramshadow(rep, tier)
 
 
+def _c14_universe(rep, tier):
+    from . import c14tier
+    from .common import load_findings
+    dis, fails, known = c14tier.run_universe(rep, tier)
+    for f in load_findings():
+        if f["property"] == "C14" and f["status"] == "known" and f["id"] in known:
+            rep.known.append("%s: %s" % (f["id"], f["what"]))
+            known.discard(f["id"])
+    for k in known:
+        fails.append({"stream": "c14-universe", "why": ["predeclared identifier captured (not a listed finding): " + k]})
+    return dis, fails
+
+
 register("C14",
          "unit tier: real disambiguate / typeVariableName / export / unexport on names and taken-sets drawn from an "
          "adversarial pool (err, cleanup, keywords and predeclared names in all capitalisations, numeric suffixes); "
@@ -350,7 +363,7 @@ register("C14",
                       nontrivial=lambda case, im: len(case.get("raw", [])) >= 3),
           e2e_part("C14", [("n", {"adversarial": True, "p_err": 0.5, "p_cleanup": 0.5})], _pairs_plan, set(),
                    lambda ur: (ur.impl or "").startswith("ok"), n_quick=100, n_thorough=1000, extra=_c14_extra),
-          _c14_paramshadow])
+          _c14_paramshadow, _c14_universe])
 
 
 def _c10_part(rep, tier):
